@@ -60,6 +60,9 @@ def _work(item):
     fn = h['fn']
     eng = Engine(timeout_ms=int(h.get('solver_timeout_ms', 30000)))
     ctx = SymCtx(eng, max_viol=h.get('max_viol', 12))
+    ctx.export_every = int(os.environ.get('VERIF_EXPORT_EVERY', '0'))
+    from pysym import proxies as _px
+    _px.CONCRETIZE_LIMIT = h.get('concretize_limit', 400000)
     t0 = time.time()
     status, err = 'ok', None
     _FUNCS.clear()
@@ -97,6 +100,7 @@ def _work(item):
         'violations': list(ctx.violations.values()),
         'viol_count': ctx.viol_count,
         'samples': ctx.samples, 'covered': ctx.covered,
+        'exports': ctx.exports,
         'functions': sorted(_FUNCS), 'wall': time.time() - t0,
     }
 
@@ -153,6 +157,52 @@ def cmd_validate(path):
                       json.dumps(obs), json.dumps(failed)[:600]))
     print('VALIDATED %d samples, %d mismatches' % (len(rec['samples']), bad))
     return 3 if bad else 0
+
+
+def _second_opinion(prop, exports):
+    """Re-discharge exported obligations (pc & not claim, expected unsat)
+    with the z3 4.8.12 and cvc5 binaries."""
+    import concurrent.futures
+    import shutil
+    import tempfile
+    d = tempfile.mkdtemp(prefix='pysym-smt-')
+    solvers = []
+    if os.path.exists('/usr/bin/z3'):
+        solvers.append(('z3-4.8.12', ['/usr/bin/z3', '-smt2', '-T:60']))
+    if shutil.which('cvc5'):
+        solvers.append(('cvc5', [shutil.which('cvc5'), '--tlimit=60000']))
+    files = []
+    for i, text in enumerate(exports):
+        fn = os.path.join(d, 'o%04d.smt2' % i)
+        with open(fn, 'w') as f:
+            f.write('(set-logic ALL)\n' + text)
+        files.append(fn)
+    res = {'exported': len(files), 'solvers': {}, 'disagree': []}
+
+    def run(job):
+        name, cmd, fn = job
+        try:
+            p = subprocess.run(cmd + [fn], capture_output=True, text=True,
+                               timeout=90)
+            out = (p.stdout + p.stderr).strip()
+        except subprocess.TimeoutExpired:
+            out = 'timeout'
+        first = out.splitlines()[0] if out else ''
+        if '(error' in out:
+            first = 'error: ' + out[:200]
+        return name, fn, first
+    jobs = [(n, c, fn) for n, c in solvers for fn in files]
+    with concurrent.futures.ThreadPoolExecutor(16) as ex:
+        for name, fn, first in ex.map(run, jobs):
+            st = res['solvers'].setdefault(name, {'unsat': 0, 'other': 0})
+            if first == 'unsat':
+                st['unsat'] += 1
+            else:
+                st['other'] += 1
+                res['disagree'].append('%s %s: %s' % (
+                    name, os.path.basename(fn), first[:120]))
+    shutil.rmtree(d, ignore_errors=True)
+    return res
 
 
 def _known():
@@ -292,6 +342,18 @@ def cmd_check(prop, tier, seed, only=None, jobs=None, verbose=False):
         else:
             validated = len(chosen)
 
+    # ---- second opinion on the solver (DESIGN 4.4) ---------------------------
+    cross = None
+    exports = [e for r in results for e in r.get('exports', [])]
+    if exports:
+        cross = _second_opinion(prop, exports[:int(os.environ.get(
+            'VERIF_MAX_EXPORTS', '240'))])
+        if cross['disagree']:
+            inconclusive.append('second-opinion solvers disagree with the '
+                                'engine on %d exported obligations: %s' % (
+                                    len(cross['disagree']),
+                                    cross['disagree'][:3]))
+
     # ---- vacuity -----------------------------------------------------------
     missing = []
     if not only:
@@ -344,6 +406,7 @@ def cmd_check(prop, tier, seed, only=None, jobs=None, verbose=False):
             'known_findings_hit': [k['key'] if 'key' in k else
                                    k['key_prefix'] for k, _, _ in known_hit],
             'inconclusive': inconclusive[:20],
+            'cross_checks': cross,
         },
         'assumptions': ev_extra.pop('assumptions', []),
         'wall_s': round(time.time() - t_start, 2),
@@ -403,6 +466,8 @@ def main(argv=None):
     if not a.prop:
         ap.error('property id required')
     seed = int(os.environ.get('VERIF_SEED', '0') or 0)
+    if a.tier == 'thorough':
+        os.environ.setdefault('VERIF_EXPORT_EVERY', '50')
     return cmd_check(a.prop.upper(), a.tier, seed, only=a.only, jobs=a.jobs,
                      verbose=a.verbose)
 
